@@ -25,4 +25,67 @@ PROPS = {
                  'distinct non-trivial = distinct sweeps, and distinct histories containing at least one successful write.'),
         'assumptions': ['16/32-bit accesses are exercised through the CPU step harness (C01/C08), not here'],
     },
+    'C01': {
+        'lean': ['H8.Props.C01', 'H8.Props.C08'],
+        'gen': ['consts', 'buscost', 'busmap', 'dispatch'],
+        'runs': [{'mode': 'step', 'shards': 16}],
+        'rule': "single-step cases on the real Cpu (fetch+exec through the verif hook) from a tagged background memory (every byte = hash of its address) with the full register file, CCR, PC, cost and the complete delta of all five stores compared: per form of spec/isa.tbl every combination of the register fields (x2), all 256 initial CCR values, every value of immediate/bit/condition fields, seeded random instances with boundary-value register files and operand addresses at both ends of on-chip RAM, DRAM and the vector area; address registers with zero upper byte (the upper byte is C08's subject). distinct non-trivial = distinct (form, first instruction bytes, resulting register file) triples of in-domain cases.",
+        'assumptions': ['the hand-written Model/Cpu.lean mirrors the Rust handlers (checked by the correspondence run on every case); only its dispatch tables are regenerated from source'],
+    },
+    'C02': {
+        'lean': ['H8.Props.C02'],
+        'gen': ['consts', 'buscost', 'busmap', 'dispatch'],
+        'runs': [{'mode': 'step', 'shards': 16}],
+        'rule': 'single-step cases on the real Cpu (fetch+exec through the verif hook) from a tagged background memory (every byte = hash of its address) with the full register file, CCR, PC, cost and the complete delta of all five stores compared: per form of spec/isa.tbl every combination of the register fields (x2), all 256 initial CCR values, every value of immediate/bit/condition fields, seeded random instances with boundary-value register files and operand addresses at both ends of on-chip RAM, DRAM and the vector area; byte forms: the (dest, src, carry-in) lattice (quick: 1/8 of all 131072 triples, offset by the seed; thorough: all), word forms: every 16-bit value against partner values, long forms: carry-chain boundary values. distinct non-trivial = distinct (form, first instruction bytes, resulting register file) triples of in-domain cases.',
+        'assumptions': ['the hand-written Model/Cpu.lean mirrors the Rust handlers (checked by the correspondence run on every case); only its dispatch tables are regenerated from source'],
+    },
+    'C03': {
+        'lean': ['H8.Props.C03'],
+        'gen': ['consts', 'buscost', 'busmap', 'dispatch'],
+        'runs': [{'mode': 'step', 'shards': 16}],
+        'rule': 'single-step cases on the real Cpu (fetch+exec through the verif hook) from a tagged background memory (every byte = hash of its address) with the full register file, CCR, PC, cost and the complete delta of all five stores compared: per form of spec/isa.tbl every combination of the register fields (x2), all 256 initial CCR values, every value of immediate/bit/condition fields, seeded random instances with boundary-value register files and operand addresses at both ends of on-chip RAM, DRAM and the vector area; 8/16-bit operands swept as in C02 with both carry-in values for ROTXL/ROTXR. distinct non-trivial = distinct (form, first instruction bytes, resulting register file) triples of in-domain cases.',
+        'assumptions': ['the hand-written Model/Cpu.lean mirrors the Rust handlers (checked by the correspondence run on every case); only its dispatch tables are regenerated from source'],
+    },
+    'C04': {
+        'lean': ['H8.Props.C04'],
+        'gen': ['consts', 'buscost', 'busmap', 'dispatch'],
+        'runs': [{'mode': 'step', 'shards': 16}],
+        'rule': 'single-step cases on the real Cpu (fetch+exec through the verif hook) from a tagged background memory (every byte = hash of its address) with the full register file, CCR, PC, cost and the complete delta of all five stores compared: per form of spec/isa.tbl every combination of the register fields (x2), all 256 initial CCR values, every value of immediate/bit/condition fields, seeded random instances with boundary-value register files and operand addresses at both ends of on-chip RAM, DRAM and the vector area; the 256 x 8 x 2 (operand byte, bit number, C) cube for every op x location (quick: half of it), bit-number registers holding 0-255. distinct non-trivial = distinct (form, first instruction bytes, resulting register file) triples of in-domain cases.',
+        'assumptions': ['the hand-written Model/Cpu.lean mirrors the Rust handlers (checked by the correspondence run on every case); only its dispatch tables are regenerated from source'],
+    },
+    'C05': {
+        'lean': ['H8.Props.C05', 'H8.Lemmas.MemBE'],
+        'gen': ['consts', 'buscost', 'busmap', 'dispatch'],
+        'runs': [{'mode': 'step', 'shards': 16}],
+        'rule': 'single-step cases on the real Cpu (fetch+exec through the verif hook) from a tagged background memory (every byte = hash of its address) with the full register file, CCR, PC, cost and the complete delta of all five stores compared: per form of spec/isa.tbl every combination of the register fields (x2), all 256 initial CCR values, every value of immediate/bit/condition fields, seeded random instances with boundary-value register files and operand addresses at both ends of on-chip RAM, DRAM and the vector area; 16 conditions x 256 CCR x both Bcc forms, all even 8-bit displacements, return frames with non-zero top byte. distinct non-trivial = distinct (form, first instruction bytes, resulting register file) triples of in-domain cases.',
+        'assumptions': ['the hand-written Model/Cpu.lean mirrors the Rust handlers (checked by the correspondence run on every case); only its dispatch tables are regenerated from source'],
+    },
+    'C06': {
+        'lean': ['H8.Props.C06'],
+        'gen': ['consts', 'buscost', 'busmap', 'dispatch'],
+        'runs': [{'mode': 'step', 'shards': 16}],
+        'rule': 'single-step cases on the real Cpu (fetch+exec through the verif hook) from a tagged background memory (every byte = hash of its address) with the full register file, CCR, PC, cost and the complete delta of all five stores compared: per form of spec/isa.tbl every combination of the register fields (x2), all 256 initial CCR values, every value of immediate/bit/condition fields, seeded random instances with boundary-value register files and operand addresses at both ends of on-chip RAM, DRAM and the vector area; TRAPA #1-#3 and RTE with all CCR values, vector contents with non-zero top byte, interrupt entry through the controller hooks (n=0 cases). distinct non-trivial = distinct (form, first instruction bytes, resulting register file) triples of in-domain cases.',
+        'assumptions': ['the hand-written Model/Cpu.lean mirrors the Rust handlers (checked by the correspondence run on every case); only its dispatch tables are regenerated from source'],
+    },
+    'C07': {
+        'lean': ['H8.Props.C07'],
+        'gen': ['consts', 'buscost', 'busmap', 'dispatch'],
+        'runs': [{'mode': 'step', 'shards': 16}],
+        'rule': 'single-step cases on the real Cpu (fetch+exec through the verif hook) from a tagged background memory (every byte = hash of its address) with the full register file, CCR, PC, cost and the complete delta of all five stores compared: per form of spec/isa.tbl every combination of the register fields (x2), all 256 initial CCR values, every value of immediate/bit/condition fields, seeded random instances with boundary-value register files and operand addresses at both ends of on-chip RAM, DRAM and the vector area; plus all 65,536 first words and all second words of every prefix class (see the C07 generator). distinct non-trivial = distinct (form, first instruction bytes, resulting register file) triples of in-domain cases.',
+        'assumptions': ['the hand-written Model/Cpu.lean mirrors the Rust handlers (checked by the correspondence run on every case); only its dispatch tables are regenerated from source'],
+    },
+    'C08': {
+        'lean': ['H8.Props.C08'],
+        'gen': ['consts', 'buscost', 'busmap', 'dispatch'],
+        'runs': [{'mode': 'step', 'shards': 16}],
+        'rule': 'single-step cases on the real Cpu (fetch+exec through the verif hook) from a tagged background memory (every byte = hash of its address) with the full register file, CCR, PC, cost and the complete delta of all five stores compared: per form of spec/isa.tbl every combination of the register fields (x2), all 256 initial CCR values, every value of immediate/bit/condition fields, seeded random instances with boundary-value register files and operand addresses at both ends of on-chip RAM, DRAM and the vector area; base registers with every upper byte, sums that wrap modulo 2^24, all EA kinds incl. stack and @@aa:8. distinct non-trivial = distinct (form, first instruction bytes, resulting register file) triples of in-domain cases.',
+        'assumptions': ['the hand-written Model/Cpu.lean mirrors the Rust handlers (checked by the correspondence run on every case); only its dispatch tables are regenerated from source'],
+    },
+    'C20': {
+        'lean': ['H8.Props.C20', 'H8.Props.C19'],
+        'gen': ['consts', 'buscost', 'busmap', 'dispatch'],
+        'runs': [{'mode': 'step', 'shards': 16}],
+        'rule': 'single-step cases on the real Cpu (fetch+exec through the verif hook) from a tagged background memory (every byte = hash of its address) with the full register file, CCR, PC, cost and the complete delta of all five stores compared: per form of spec/isa.tbl every combination of the register fields (x2), all 256 initial CCR values, every value of immediate/bit/condition fields, seeded random instances with boundary-value register files and operand addresses at both ends of on-chip RAM, DRAM and the vector area; six bus-controller settings under which every (area, kind) cost is distinct; only the charge is compared. distinct non-trivial = distinct (form, first instruction bytes, resulting register file) triples of in-domain cases.',
+        'assumptions': ['the hand-written Model/Cpu.lean mirrors the Rust handlers (checked by the correspondence run on every case); only its dispatch tables are regenerated from source'],
+    },
 }
